@@ -235,7 +235,12 @@ def verify_contract(key, registry=None):
             if rep.paths > contract.max_paths:
                 rep.undecided.append('path limit %d exceeded' % contract.max_paths)
                 break
-            o = run_path(contract, dec, registry, first)
+            try:
+                o = run_path(contract, dec, registry, first)
+            except z3.Z3Exception:
+                # z3 occasionally fails with an internal error ('unreachable') on a query it answers when asked again:
+                # the path is re-run once from scratch (fresh context); a second failure is reported as a checker crash
+                o = run_path(contract, dec, registry, first)
             if first:
                 rep.requires_sat = o.get('requires_sat')
             first = False
